@@ -76,6 +76,7 @@ type State struct {
 	results []Val             // root results at finish
 	imprecise []string
 	epoch   int
+	pending []pendingHavoc
 }
 
 type ownedObj struct {
@@ -103,6 +104,7 @@ func (s *State) clone() *State {
 	n.pc = append(make([]string, 0, len(s.pc)+8), s.pc...)
 	n.owned = append([]ownedObj{}, s.owned...)
 	n.imprecise = s.imprecise
+	n.pending = append([]pendingHavoc{}, s.pending...)
 	for _, f := range s.frames {
 		nf := *f
 		nf.regs = make(map[ssa.Value]Val, len(f.regs))
@@ -186,6 +188,7 @@ type Engine struct {
 	sitePos  map[string]string
 	softs    []string
 	heapIDs  map[string]int
+	noAssume bool // obligations at the end of a path must not mask each other
 	noTypeInv bool
 	usedTypeInvs map[string]bool
 }
@@ -326,7 +329,26 @@ func (e *Engine) heapGet(st *State, key, srt string) string {
 		return t
 	}
 	e.keySort[key] = srt
-	n := sym(fmt.Sprintf("%s@%d", key, st.epoch))
+	ep := st.epoch
+	// a partial havoc that happened before this array was first touched applies to it as well
+	for _, ph := range st.pending {
+		if ph.epoch <= ep {
+			continue
+		}
+		hit := ph.eff.Ext && keyIsExternal(key)
+		if !hit {
+			for k := range ph.eff.Keys {
+				if strings.HasPrefix(key, k) {
+					hit = true
+					break
+				}
+			}
+		}
+		if hit {
+			ep = ph.epoch
+		}
+	}
+	n := sym(fmt.Sprintf("%s@%d", key, ep))
 	e.decl(n, srt)
 	st.heap[key] = n
 	return n
@@ -565,6 +587,7 @@ func (e *Engine) havocHeap(st *State, why string) {
 	e.nfresh++
 	ep := e.nfresh
 	st.epoch = ep
+	st.pending = nil
 	for _, key := range sortedKeys(old) {
 		if strings.HasPrefix(key, "G:") && e.P.immutableGlobal(key) {
 			st.heap[key] = old[key]
@@ -614,7 +637,9 @@ func (e *Engine) oblige(st *State, name, kind, text, goal, where string, props [
 	}
 	o := e.getObl(name, kind, text, props)
 	o.Cases = append(o.Cases, OblCase{PC: append([]string{}, st.pc...), Goal: goal, Where: where})
-	st.assume(goal)
+	if !e.noAssume {
+		st.assume(goal)
+	}
 }
 
 func (e *Engine) getObl(name, kind, text string, props []string) *Obl {
@@ -821,6 +846,7 @@ type LoopInfo struct {
 	rangeIdx *ssa.Alloc
 	rangeLen ssa.Value
 	rangeKind string // "index" "map" "string"
+	eff       *Effect
 }
 
 type heapWrite struct {
@@ -876,6 +902,7 @@ func (P *Program) loopsOf(fn *ssa.Function) map[*ssa.BasicBlock]*LoopInfo {
 		li := loops[h]
 		li.ordinal = i + 1
 		seenCell := map[*ssa.Alloc]bool{}
+		li.eff = &Effect{Keys: map[string]bool{}}
 		for b := range li.body {
 			for _, ins := range b.Instrs {
 				switch x := ins.(type) {
@@ -886,23 +913,26 @@ func (P *Program) loopsOf(fn *ssa.Function) map[*ssa.BasicBlock]*LoopInfo {
 							li.cells = append(li.cells, a)
 						}
 					} else {
-						li.heapAll = true // refined below in future
+						P.storeEffect(li.eff, x.Addr, x.Val.Type())
 					}
 				case *ssa.MapUpdate:
-					li.heapAll = true
-				case *ssa.Call:
-					if !P.callIsPure(&x.Call) {
-						li.heapAll = true
+					if mt, ok := x.Map.Type().Underlying().(*types.Map); ok {
+						k, v := typeName(mt.Key()), typeName(mt.Elem())
+						li.eff.Keys["MD:"+k+":"+v] = true
+						li.eff.Keys["MV:"+k+":"+v+":"] = true
+					} else {
+						li.eff.All = true
 					}
-				case *ssa.Defer, *ssa.Go, *ssa.Send:
-					li.heapAll = true
-				case *ssa.Alloc:
-					if !x.Heap && !seenCell[x] {
-						// re-initialised on every iteration: not loop-carried, but must not keep stale value
-					}
+				case *ssa.Go, *ssa.Send, *ssa.Select:
+					li.eff.All = true
+				case *ssa.Defer:
+					li.eff.All = true
+				case ssa.CallInstruction:
+					P.callEffect(li.eff, x.Common(), fn)
 				}
 			}
 		}
+		li.heapAll = li.eff.All
 		sort.Slice(li.cells, func(a, b int) bool { return li.cells[a].Pos() < li.cells[b].Pos() })
 		// range-index pattern
 		if len(h.Instrs) >= 4 {
@@ -1010,10 +1040,10 @@ func (e *Engine) gotoBlock(st *State, b *ssa.BasicBlock) []*State {
 			st.cells[id] = e.freshVal(st, "loop."+a.Comment, t)
 		}
 	}
-	if li.heapAll {
+	if !li.eff.pure() {
 		ownedSave := st.owned
 		st.owned = nil // owned objects may be modified by the loop body itself
-		e.havocHeap(st, "loop")
+		e.havocEffect(st, li.eff, "loop")
 		st.owned = ownedSave
 	}
 	if li.rangeIdx != nil {
